@@ -30,6 +30,7 @@ reads inside one token are not re-modelled); that step and truncated responses s
 import KafkaVerif.Lemmas.RecordBatchSpec
 import KafkaVerif.Lemmas.RecordWriter
 import KafkaVerif.Lemmas.Pages
+import KafkaVerif.Lemmas.PageHeap
 import KafkaVerif.Lemmas.RecordReader
 import KafkaVerif.Props.C02
 import KafkaVerif.Lemmas.ByteTokens
@@ -652,6 +653,30 @@ theorem v1_write_paged_spec (P : Nat) (hP : 0 < P) (c : Crcs) (h1 : ∀ b, c.iee
   have b := writeV1PagedC_spec P hP c.ieee comp attrs now recs pb hc hb0
   have sc := writeV1C_spec c h1 h2 comp attrs now recs hw hwf'
   exact ⟨⟨_, a.1, a.2.1, writeV1_spec c h1 h2 attrs now recs hwf⟩, ⟨_, b.1, b.2.1, sc.1, sc.2⟩⟩
+
+/-! ### The bytes handed out stay intact (pages WITH their content) -/
+
+open Model.Pages in
+/-- **"the key/value bytes it hands out stay intact until released, whatever else is decoded meanwhile"**, at the level
+of the bytes: in the heap of pages with contents (`Model/PageHeap`: only a live pageBuffer stores into its pages;
+`newPage` takes a page from the pool or allocates one), after ANY history `pre`, take a page `p` on which some holder
+keeps a count (a `pageRef` = the Bytes of a key or a value) and whose buffer is gone (no writer: the decode that produced
+it has finished).  Then over EVERY continuation `es` — other buffers allocating, recycling pooled pages, writing
+arbitrary bytes, taking and dropping references, the runtime emptying the pool — as long as that holder keeps its count,
+the content of `p` is exactly what it was, and no buffer ever becomes its writer again. -/
+theorem held_bytes_intact (pre es : List HEvent) (s : HState) (h : hrun hinit pre = some s) (p : Nat)
+    (hp : p ∈ s.ps.held) (hw : s.writer p = false) :
+    ∀ s', hrun s es = some s' → (∀ k, k ≤ es.length → ∀ sk, hrun s (es.take k) = some sk → p ∈ sk.ps.held) →
+      s'.content p = s.content p ∧ s'.writer p = false :=
+  heap_stable_aux es s (hinv_run pre hinit s inv_init h) p hp hw
+
+open Model.Pages in
+/-- non-vacuity: a decode fills page 0 and hands out a reference, its buffer goes away; a second decode allocates page 1,
+fills and releases it; a third one recycles page 1 from the pool and overwrites it — page 0 still reads `[1, 2, 3]` -/
+example : ∃ s, hrun hinit [.allocPage, .write 0 [1, 2, 3], .refTo 0, .unrefBuf 0, .allocPage, .write 1 [9], .unrefBuf 1,
+    .reusePage 0, .write 1 [7, 7]] = some s ∧ 0 ∈ s.ps.held ∧ s.writer 0 = false ∧ s.content 0 = [1, 2, 3] ∧
+    s.content 1 = [7, 7] := by
+  refine ⟨_, rfl, ?_, ?_, ?_, ?_⟩ <;> decide
 
 /-! ### Timestamp type (attributes bit 3) -/
 
